@@ -49,6 +49,10 @@ pub(crate) struct DhtHandler {
     refresh: TableRefresh,
     // Ongoing TableLookups.
     lookups: HashMap<ActionID, TableLookup>,
+    // Lookups requested before the initial bootstrap has completed. They are started as soon as
+    // it does.
+    pending_lookups: Vec<StartLookup>,
+    initial_bootstrap_completed: bool,
 }
 
 impl DhtHandler {
@@ -96,6 +100,8 @@ impl DhtHandler {
             bootstrap_txs: HashMap::new(),
             refresh: table_refresh,
             lookups: HashMap::new(),
+            pending_lookups: Vec::new(),
+            initial_bootstrap_completed: false,
         }
     }
 
@@ -157,7 +163,13 @@ impl DhtHandler {
                 self.handle_check_bootstrap(tx);
             }
             OneshotTask::StartLookup(lookup) => {
-                self.handle_start_lookup(lookup).await;
+                if self.initial_bootstrap_completed {
+                    self.handle_start_lookup(lookup).await;
+                } else {
+                    // The routing table is not populated yet, starting the lookup now would make
+                    // it end immediately with no results.
+                    self.pending_lookups.push(lookup);
+                }
             }
             OneshotTask::GetLocalAddr(tx) => self.handle_get_local_addr(tx),
             OneshotTask::GetState(tx) => self.handle_get_state(tx),
@@ -422,6 +434,13 @@ impl DhtHandler {
         // Send notification that the bootstrap has completed.
         for (_, tx) in self.bootstrap_txs.drain() {
             tx.send(()).unwrap_or(())
+        }
+
+        // Start the lookups that were requested during the initial bootstrap.
+        self.initial_bootstrap_completed = true;
+
+        for lookup in std::mem::take(&mut self.pending_lookups) {
+            self.handle_start_lookup(lookup).await;
         }
 
         // Start the refresh action.
